@@ -102,7 +102,7 @@ def main():
         for r1 in runs + ranges:
             f.write(json.dumps(r1) + "\n")
     pr = subprocess.run(["timeout", "3000", binpath, pfile, ofile], capture_output=True, text=True)
-    outs = [json.loads(l) for l in open(ofile)] if os.path.exists(ofile) else []
+    outs = vlib.read_ndjson(ofile)
     if pr.returncode != 0:
         rep.violation("crash", {"stderr": pr.stderr[-300:]}, "harness died (exit %s): %s" % (pr.returncode, pr.stderr[-200:]))
     errs = [o for o in outs if o.get("e") == "Error"]
